@@ -1,6 +1,6 @@
 (* Property C03 — theorem statements only, each closed by `exact`, each followed by Print Assumptions. *)
 From Coq Require Import PArith List Bool.
-From C03 Require Import Model Statement ProofsBfs ProofsWatcher ProofsUpdate.
+From C03 Require Import Model Statement ProofsBfs ProofsWatcher ProofsUpdate MiniLang ProofsMini MiniScheme.
 Import ListNotations.
 
 (* find_targets_recursive: for EVERY deps map and fired set the worklist terminates within
@@ -78,6 +78,69 @@ Print Assumptions update_eq_full.
 Print Assumptions update_eq_full_history.
 Print Assumptions stale_errors_removed.
 Print Assumptions no_error_missed.
+
+(* ================= the mini language (MiniLang.v): the contracts are THEOREMS ================= *)
+
+(* deps_complete for the mini language: the checker reads other definitions only through the logged reader,
+   every logged read is a dependency edge, hence equal symbol tables on the dependencies => equal result *)
+Theorem deps_complete_minilang : forall sym key_of tkey_of FUEL,
+  deps_complete msrc sig merr (fun x => x) mlookup_target (mcheck_target sym key_of tkey_of FUEL).
+Proof. exact deps_complete_mini. Qed.
+Print Assumptions deps_complete_minilang.
+
+(* diff_complete for the concrete naming scheme (W = S w symbols per module, any slot table) *)
+Theorem diff_complete_minilang : forall w slot_key,
+  diff_complete sig (mmod_of c_tkey_of) (mowner (c_key_of w slot_key) c_tgt) (fun x => x)
+                (mdiff (c_syms_of w) osig_eqb).
+Proof. intros w slot_key. exact (diff_complete_mini (c_key_of w slot_key) c_tgt c_tkey_of (c_syms_of w) c_tkey_tgt (c_syms_fin w slot_key)). Qed.
+Print Assumptions diff_complete_minilang.
+
+(* update_eq_full WITHOUT hypotheses about checker, deps, diff or batch build: all six contracts are proved *)
+Theorem update_eq_full_minilang : forall w slot_key key_slot FUEL mods st p' changed st',
+  let sym := c_sym w key_slot in let key_of := c_key_of w slot_key in
+  let chk := mcheck_target sym key_of c_tkey_of FUEL in
+  state_ok msrc sig merr (mmod_of c_tkey_of) (munits_of c_tgt) (mowner key_of c_tgt) chk st ->
+  edit_ok msrc sig merr mods st p' changed ->
+  update msrc sig merr (mmod_of c_tkey_of) (munits_of c_tgt) (mowner key_of c_tgt) mlookup_target chk
+         (mcheck_module sym key_of c_tgt c_tkey_of FUEL) (mdiff (c_syms_of w) osig_eqb) mods st p' changed = Some st' ->
+  (forall u, errors msrc sig merr st' u = errs_of sig merr (mfull_check sym key_of c_tgt c_tkey_of FUEL p' u)) /\
+  (forall m, d_prog st' m = p' m) /\
+  state_ok msrc sig merr (mmod_of c_tkey_of) (munits_of c_tgt) (mowner key_of c_tgt) chk st'.
+Proof.
+  intros w slot_key key_slot FUEL.
+  exact (update_eq_full_minilang_proof (c_sym w key_slot) (c_key_of w slot_key) c_tgt c_tkey_of (c_syms_of w) FUEL
+           c_tkey_tgt (c_syms_fin w slot_key)).
+Qed.
+Print Assumptions update_eq_full_minilang.
+
+(* termination: in the mini language `update` always returns — MAX_ITER is never reached (at most two rounds,
+   because every snapshot entry is declared; with inferred entries this argument does not apply) *)
+Theorem update_total_minilang : forall w slot_key key_slot FUEL mods st p' changed,
+  let sym := c_sym w key_slot in let key_of := c_key_of w slot_key in
+  let chk := mcheck_target sym key_of c_tkey_of FUEL in
+  state_ok msrc sig merr (mmod_of c_tkey_of) (munits_of c_tgt) (mowner key_of c_tgt) chk st ->
+  exists st', update msrc sig merr (mmod_of c_tkey_of) (munits_of c_tgt) (mowner key_of c_tgt) mlookup_target chk
+                     (mcheck_module sym key_of c_tgt c_tkey_of FUEL) (mdiff (c_syms_of w) osig_eqb) mods st p' changed = Some st'.
+Proof.
+  intros w slot_key key_slot FUEL.
+  exact (update_total_minilang_proof (c_sym w key_slot) (c_key_of w slot_key) c_tgt c_tkey_of (c_syms_of w) FUEL
+           c_tkey_tgt (c_syms_fin w slot_key)).
+Qed.
+Print Assumptions update_total_minilang.
+
+(* non-vacuity: the empty daemon state (no files) satisfies state_ok *)
+Example minilang_state_ok : forall w slot_key key_slot FUEL,
+  state_ok msrc sig merr (mmod_of c_tkey_of) (munits_of c_tgt) (mowner (c_key_of w slot_key) c_tgt)
+           (mcheck_target (c_sym w key_slot) (c_key_of w slot_key) c_tkey_of FUEL)
+           (mkD (fun _ => None) (fun _ => None) [] (fun _ => []) []).
+Proof.
+  intros. split; [split|split; [|split]]; simpl.
+  - intros u s H. discriminate.
+  - intros u _. reflexivity.
+  - intros u r g H. discriminate.
+  - intro u. reflexivity.
+  - intros u H. contradiction.
+Qed.
 
 (* ---- non-vacuity *)
 Example bfs_example :
